@@ -82,6 +82,14 @@ func renderObsProcs(sc *Scenario, meta *c20Meta) {
 					tt = "`" + t + ".csv`"
 				}
 				s = append(s, fmt.Sprintf("ECHO '@W %d';", i), fmt.Sprintf("INSERT INTO %s VALUES (%d, 0);", tt, op.Key))
+			case "noop":
+				// a data-changing statement that matches no record: for the model a write
+				// access (the table is held for update from here) without any change
+				q := fmt.Sprintf("UPDATE %s SET n = n + 1 WHERE id = 99999;", t)
+				if op.Form == 1 {
+					q = fmt.Sprintf("DELETE FROM %s WHERE id = 99999;", t)
+				}
+				s = append(s, fmt.Sprintf("ECHO '@W %d';", i), q)
 			case "inc":
 				tt := t
 				if op.Form == 1 {
@@ -129,7 +137,11 @@ func (c20) Gen(seed uint64, tier string) *Scenario {
 				case 0, 1, 2:
 					ops = append(ops, ObsOp{Kind: "sel", Table: tb, Form: r.Pick(0, 0, 0, 1, 2, 3, 4)})
 				case 3:
-					ops = append(ops, ObsOp{Kind: "touch", Table: tb, Form: r.Intn(6)})
+					if r.Bool(0.5) {
+						ops = append(ops, ObsOp{Kind: "touch", Table: tb, Form: r.Intn(6)})
+					} else {
+						ops = append(ops, ObsOp{Kind: "noop", Table: tb, Form: r.Intn(2)})
+					}
 				case 4:
 					ops = append(ops, ObsOp{Kind: "selfu", Table: tb})
 				case 5:
@@ -318,7 +330,7 @@ func (c20) Eval(t *testing.T, c *Case, dec func(int) *Decider) *Outcome {
 				for _, ts := range st {
 					ts.mode, ts.changes = "", nil
 				}
-			case "sel", "touch", "selfu", "ins", "inc":
+			case "sel", "touch", "selfu", "ins", "inc", "noop":
 				ts := get(op.Table)
 				write := op.Kind != "sel" && op.Kind != "touch"
 				if ts.mode == "" || (ts.mode == "ro" && write) {
@@ -343,7 +355,7 @@ func (c20) Eval(t *testing.T, c *Case, dec func(int) *Decider) *Outcome {
 				} else if ts.mode == "ro" {
 					o.Stats.probe("repeated-read-from-cache")
 				}
-				if op.Kind == "touch" {
+				if op.Kind == "touch" || op.Kind == "noop" {
 					if last {
 						break ops
 					}
